@@ -208,6 +208,10 @@ def t9(ctx):
     b = ctx.facts.one(r"^memory::Memory::<R, PR, H>::truncate$")
     ev, res = ctx.eval(b, no_inline=(r"to_mmap_options$",))
     drops = [e for e in res.log if e["kind"] == "drop" and not e["chain"] and re.search(r"Box<memmap2::MmapMut", e.get("ty") or "")]
+    # `drop(Box::from_raw(old))` releases the same way as letting the box go out of scope
+    for e in res.log:
+        if e["kind"] == "call" and not e["chain"] and re.search(r"^(std|core)::mem::drop$", e["callee"]) and e["args"] and "from_raw" in show(e["args"][0]):
+            drops.append({"kind": "drop", "value": e["args"][0], "seq": e["seq"], "bb": e["bb"], "chain": e["chain"], "body": e.get("body"), "si": e.get("si")})
     stores = [e for e in res.log if e["kind"] == "store" and not e["chain"] and e["path"] and e["path"][-1] == "buf"]
     between = []
     swaps = [e for e in res.log if e["kind"] == "call" and not e["chain"] and e["callee"].endswith("mem::replace") and "buf" in show(e["args"][0])]
